@@ -9,6 +9,6 @@ TreeRec(t) == [top |-> SetToSeq(t.top),
                args |-> SetToSeq({[path |-> a.path, abs |-> IF a.abs THEN "1" ELSE "0", dots |-> IF a.dots THEN "1" ELSE "0", via |-> a.via] :
                                     a \in {x \in ArgsOf(t) : Constrained(x)}})]
 EmitInit == /\ emitted = ndJsonSerialize(OutFile, SetToSeq({TreeRec(t) : t \in Trees}))
-            /\ tree = (CHOOSE t \in Trees : TRUE) /\ args = <<>>
-EmitSpec == EmitInit /\ [][UNCHANGED <<emitted, tree, args>>]_<<emitted, tree, args>>
+            /\ tree = (CHOOSE t \in Trees : TRUE) /\ args = <<>> /\ cwdvia = "w"
+EmitSpec == EmitInit /\ [][UNCHANGED <<emitted, tree, args, cwdvia>>]_<<emitted, tree, args, cwdvia>>
 ====
